@@ -45,7 +45,7 @@ def notes_of(seqs):
     return res
 
 
-def q_groups(name, fl, bins, build, plan, direct=False):
+def q_groups(name, fl, bins, build, plan, direct=False, bar_tokens=True):
     def fn(ctx):
         ntr, piece = build(ctx)
         tok = mk(fl, bins, ntr)
@@ -56,7 +56,7 @@ def q_groups(name, fl, bins, build, plan, direct=False):
         if nb > 4:
             ctx.assume(False)
         whole_in = [Bar.to_sequence([b.copy() for b in tr]) for tr in bars]
-        ok, whole_tokens = call(tok.tokenise, whole_in)
+        ok, whole_tokens = call(tok.tokenise, whole_in, insert_bar_token=bar_tokens)
         ctx.must("whole_piece_tokenises", ok, disc=None if ok else type(whole_tokens).__name__)
         if not ok:
             ctx.note("exception", repr(whole_tokens))
@@ -77,7 +77,7 @@ def q_groups(name, fl, bins, build, plan, direct=False):
                         c_.get_sequence_duration()
                 else:
                     chunk = [Bar.to_sequence([tr[i].copy() for i in g]) for tr in bars]
-                o, t = call(tok.tokenise, chunk, state_dict=state)
+                o, t = call(tok.tokenise, chunk, state_dict=state, insert_bar_token=bar_tokens)
                 if not o:
                     okc = False
                     bad.append((groups, "raised " + type(t).__name__))
@@ -119,7 +119,7 @@ def q_groups(name, fl, bins, build, plan, direct=False):
             conds.append(multiset_eq([[g[0], g[1], g[2]] for g in ref[ti][0]], [[n.pitch, n.start, n.end] for n in want]))
         ctx.must("whole_stream_reproduces_input", and_(conds))
         return [whole_tokens, [str(b) for b in bad]]
-    return Query(f"groups/{name}/{plan}/f{''.join(str(int(x)) for x in fl)}-b{bins}{'/direct' if direct else ''}", fn,
+    return Query(f"groups/{name}/{plan}/f{''.join(str(int(x)) for x in fl)}-b{bins}{'/direct' if direct else ''}{'' if bar_tokens else '/nobartokens'}", fn,
                  ["whole_piece_tokenises", "every_grouping_equals_whole", "whole_stream_reproduces_input"],
                  desc=f"all groupings of the bars of piece {name}")
 
@@ -202,6 +202,9 @@ def queries(tier, seed):
         qs.append(q_groups("a", FLAGS[0], 1, piece_a(plan), plan))
         qs.append(q_groups("c", FLAGS[15], 8, piece_c(plan), plan))
     qs.append(q_groups("c", FLAGS[0], 1, piece_c("none"), "none"))
+    qs.append(q_groups("a", FLAGS[0], 1, piece_a("34-38-34"), "34-38-34"))     # signature history A -> B -> A
+    qs.append(q_groups("a", FLAGS[15], 8, piece_a("none"), "none", bar_tokens=False))
+    qs.append(q_groups("c", FLAGS[0], 1, piece_c("34"), "34", bar_tokens=False))
     qs.append(q_groups("c", FLAGS[0], 1, piece_c("38"), "38"))      # a 36-tick note fills a 3/8 bar completely
     qs.append(q_groups("c", FLAGS[15], 8, piece_c("38"), "38"))
     return qs
